@@ -18,6 +18,7 @@ import YaegiVerif.Generated.C04
            | (app d LEXP REXP (REXP…) VAL esz noscan) | (apps d LEXP REXP REXP VAL esz noscan) | (cp REXP REXP)
            | (ms LEXP IEXP REXP) | (md LEXP IEXP) | (lk2 d x ok LEXP IEXP VAL [rdx rdok]) | (call d LEXP LEXP k REXP) | (show x…)
            | (clit d LEXP isStruct VAL (((i…) REXP)…))
+           | (cnm d LEXP LEXP LEXP k LEXP LEXP VAL) | (rsw d LEXP LEXP VAL VAL)
            | (rcv d LEXP REXP) | (as2 d x ok REXP succ VAL rdx rdok)
      OP    SOP | (rng LEXP i v (SOP…)) | (capt LEXP x LEXP k (n…)) -/
 namespace YaegiVerif.Driver.C04
@@ -93,6 +94,10 @@ def parseS : Sexp → Option SOp
       | .list [p, r] => do some ((← parseList Sexp.nat? p), (← parseR r))
       | _ => none) elems
     some (.complit (← d.bool?) (← parseL l) (← st.bool?) (← parseVal z) es)
+  | .list [.atom "cnm", d, l, p, s1, k, s2, s3, z] => do
+    some (.callNamed (← d.bool?) (← parseL l) (← parseL p) (← parseL s1) (← k.int?) (← parseL s2) (← parseL s3) (← parseVal z))
+  | .list [.atom "rsw", d, l1, l2, v1, v2] => do
+    some (.retSwap (← d.bool?) (← parseL l1) (← parseL l2) (← parseVal v1) (← parseVal v2))
   | .list [.atom "rcv", d, l, r] => do some (.recv (← d.bool?) (← parseL l) (← parseR r))
   | .list [.atom "as2", d, x, ok, r, succ, z, rdx, rdok] => do
     some (.assert2 (← d.bool?) (← x.nat?) (← ok.nat?) (← parseR r) (← succ.bool?) (← parseVal z) (← rdx.bool?) (← rdok.bool?))
